@@ -33,6 +33,40 @@ EXEMPT = {
 }
 
 
+# declared types of the exempt fields: a private field that was merely renamed keeps its exemption (the
+# old name is gone from the struct and exactly one field of that type has no entry of its own)
+EXEMPT_TYPES = {
+    (VM, "register_pool"): "std::vec::Vec<std::vec::Vec<value::JsValue>>",
+    (VM, "arguments_pool"): "std::vec::Vec<std::vec::Vec<value::JsValue>>",
+    (VM, "register_guard"): "gc::Guard<value::JsObject>",
+    (TF, "register_guard"): "gc::Guard<value::JsObject>",
+    (VM, "exception_value"): "std::option::Option<value::Guarded>",
+    (TF, "exception_value"): "std::option::Option<value::Guarded>",
+    (VM, "current_constructor"): "std::option::Option<gc::Gc<value::JsObject>>",
+    (VM, "trampoline_stack"): "std::vec::Vec<interpreter::bytecode_vm::TrampolineFrame>",
+}
+
+
+def rename_tolerant(fx, ck):
+    """extend EXEMPT for renamed fields; returns the table to use"""
+    table = dict(EXEMPT)
+    for adt in (VM, TF):
+        a = fx.adts.get(adt)
+        if a is None:
+            continue
+        flds = {fd["name"]: fx.tys(fd["ty"]) for fd in a["variants"][0]["fields"]}
+        gone = [(k, why) for k, why in EXEMPT.items() if k[0] == adt and k[1] not in flds]
+        for (k, why) in gone:
+            want = EXEMPT_TYPES.get(k)
+            cands = [n for n, ty in flds.items() if ty == want and (adt, n) not in EXEMPT and (adt, n) not in table]
+            same_gone = [g for g, _ in gone if EXEMPT_TYPES.get(g) == want]
+            if want and len(cands) == len(same_gone) and cands:
+                for n in cands:
+                    table[(adt, n)] = why + " (field renamed: an entry `%s` of the same type left the struct)" % k[1]
+                    ck.note("exemption of %s.%s carried over to the renamed field %s" % (adt.split("::")[-1], k[1], n))
+    return table
+
+
 def builders_of(fx, root, adts, depth=2):
     """the function, its closures, and local helpers (to `depth` call levels) that construct one of `adts`:
     extracting the frame conversion into a named function must not hide it from the analysis"""
@@ -63,6 +97,7 @@ def run(tier):
                ["host schedules, batching and settlement order", "Promise.race/any/allSettled semantics",
                 "that Interpreter.env matches the resumed context when something else ran in between"])
     fx = F.load("A")
+    exempt = rename_tolerant(fx, ck)
     ck.configs.append("A: cargo +nightly check --lib --features c-api")
     for a in (VM, TF, SV, STF):
         ck.anchor(a in fx.adts, "struct " + a)
@@ -94,8 +129,8 @@ def run(tier):
             short = "%s.%s" % (adt.split("::")[-1], n)
             if n in cap[adt]:
                 ck.instance("R1.capture", short, F.short_span(ss.span))
-            elif (adt, n) in EXEMPT:
-                ck.instance("R1.capture", short + " (exempt: %s)" % EXEMPT[(adt, n)], F.short_span(ss.span))
+            elif (adt, n) in exempt:
+                ck.instance("R1.capture", short + " (exempt: %s)" % exempt[(adt, n)], F.short_span(ss.span))
             else:
                 ck.instance("R1.capture", short, F.short_span(ss.span), ok=False)
                 ck.finding("R1.capture", "R1.capture/%s" % short, F.short_span(ss.span),
@@ -130,7 +165,7 @@ def run(tier):
             short = "%s.%s" % (adt.split("::")[-1], n)
             if dep:
                 ck.instance("R2.restore", short, F.short_span(fs.span))
-            elif (adt, n) in EXEMPT:
+            elif (adt, n) in exempt:
                 ck.instance("R2.restore", short + " (exempt)", F.short_span(fs.span))
             else:
                 ck.instance("R2.restore", short, F.short_span(fs.span), ok=False)
@@ -171,7 +206,7 @@ def run(tier):
             for bi, t in g.calls():
                 if t[1].get("d", "").endswith(("promise::promise_then", "WaitGraph::add_waiter", "WaitGraph::wait_for")):
                     subscribes = True
-        ok = subscribes or f.parent in OBSERVER_OK
+        ok = subscribes or f.parent in OBSERVER_OK or M.only_called_from(fx, f.parent, set(OBSERVER_OK))
         ck.instance("R5.status-observers-subscribe", f.parent + (" (%s)" % OBSERVER_OK[f.parent] if f.parent in OBSERVER_OK and not subscribes else ""), F.short_span(f.span), ok=ok)
         if not ok:
             ck.finding("R5.status-observers-subscribe", "R5.status-observers-subscribe/" + f.parent, F.short_span(f.span),
